@@ -726,6 +726,31 @@ func checkMainsStdout(w *World, dirs ...string) []*OwnOb {
 				}
 			}
 		}
+		// the output file is opened (and truncated) only after every input has been read: an output path that is also an
+		// input must not be emptied before it is loaded (bkli -o base.yaml base.yaml next.yaml is the migrate workflow)
+		{
+			openIdx, lastLoad := -1, -1
+			for i, st := range stmts {
+				ast.Inspect(st, func(nd ast.Node) bool {
+					c, ok := nd.(*ast.CallExpr)
+					if !ok {
+						return true
+					}
+					if callName(w, c, info) == "os.OpenFile" { // the tools open their output with os.OpenFile (flags checked elsewhere); bkl's os.Create is the CPU profile
+						if openIdx == -1 {
+							openIdx = i
+						}
+					}
+					if callee := w.calleeOfCall(c, info); callee != nil && reachesFunc(w, callee, ".:Parser.loadFile") {
+						lastLoad = i
+					}
+					return true
+				})
+			}
+			okOpen := openIdx == -1 || lastLoad < openIdx
+			out = append(out, &OwnOb{Key: fi.Key + ".effects[the output file is opened after the inputs were read]", Kind: "effects", OK: okOpen, Pos: pos,
+				Why: "main opens its output file for writing (truncating it) before the last input has been loaded: an output path that is also an input is emptied before it is read"})
+		}
 		okLast := writeIdx >= 0
 		// after the first output statement only the error check of that write may follow
 		for i := writeIdx + 1; okLast && i < len(stmts); i++ {
@@ -801,6 +826,28 @@ func checkMainsStdout(w *World, dirs ...string) []*OwnOb {
 		}
 	}
 	return out
+}
+
+// reachesFunc: fi is, or (transitively) calls, the repository function with the given key.
+func reachesFunc(w *World, fi *FuncInfo, key string) bool {
+	seen := map[*FuncInfo]bool{}
+	var dfs func(f *FuncInfo) bool
+	dfs = func(f *FuncInfo) bool {
+		if f.Key == key {
+			return true
+		}
+		if seen[f] {
+			return false
+		}
+		seen[f] = true
+		for _, c := range w.callees[f] {
+			if dfs(c) {
+				return true
+			}
+		}
+		return false
+	}
+	return dfs(fi)
 }
 
 func insideExitBranch(s ast.Stmt, p token.Pos) bool {
